@@ -69,7 +69,7 @@ let parse_opts fs =
         o_dis_attributes = bo i; o_dis_start_time = bo j; o_dis_durations = bo k;
         o_f_activation = z_of_string fa; o_f_travel = z_of_string ft; o_f_vehicles_duration = z_of_string fv;
         o_f_unplanned = z_of_string fu; o_dis_dgroups = false;
-        o_f_early = Z0; o_f_late = Z0; o_f_min_stops = Z0; o_f_stop_balance = Z0; o_dis_multipliers = false }
+        o_f_early = Z0; o_f_late = Z0; o_f_min_stops = Z0; o_f_stop_balance = Z0; o_dis_multipliers = false; o_cap_obj = [] }
   | _ -> failwith "bad opt line"
 
 let the_gi : ginput option ref = ref None
@@ -94,6 +94,8 @@ let keys inp (l : nat list) =
   let ks = List.sort compare (List.map (fun u -> unit_key inp (n2i u)) l) in
   String.concat " " (List.map string_of_int ks)
 
+let res_names_ref : string list ref = ref []
+let res_name r = (try List.nth !res_names_ref r with _ -> string_of_int r)
 let term_names (inp : input) : string list =
   let o = inp.in_opts in
   let pos z = (match z with Zpos _ -> true | _ -> false) in
@@ -104,7 +106,8 @@ let term_names (inp : input) : string list =
   (if pos o.o_f_early && has_early inp then ["early_arrival_penalty"] else []) @
   (if pos o.o_f_late && has_late inp then ["late_arrival_penalty"] else []) @
   (if pos o.o_f_min_stops && has_min_stops inp then ["min_stops"] else []) @
-  (if pos o.o_f_stop_balance then ["stop_balance"] else [])
+  (if pos o.o_f_stop_balance then ["stop_balance"] else []) @
+  List.concat_map (fun (r, (f, _)) -> if o.o_dis_capacity && pos f then ["capacity_" ^ res_name (n2i r)] else []) o.o_cap_obj
 
 let snapshot id step (inp : input) (s : state) =
   let p = Printf.sprintf "%s %d" id step in
@@ -205,6 +208,7 @@ let run_engine (id, lines) =
   let dgroups = ref [] and dgopt = ref false in
   let xstops = ref [] and xvehs = ref [] and xopt = ref None in
   let xmults = ref [] and xmopt = ref false in
+  let capobj = ref [] in
   let inp = ref None and sols = ref [||] and cur = ref 0 and step = ref 0 in
   let get_inp () = match !inp with Some i -> i | None -> failwith "no build" in
   try
@@ -219,6 +223,7 @@ let run_engine (id, lines) =
     | "xstop" :: [i; t; e; l] -> xstops := (int_of_string i, (z_of_string t, z_of_string e, z_of_string l)) :: !xstops
     | "xveh" :: [v; m; q] -> xvehs := (int_of_string v, (z_of_string m, z_of_string q)) :: !xvehs
     | "xmopt" :: [x] -> xmopt := (x = "1")
+    | "capobj" :: [r; f; off] -> capobj := !capobj @ [(i2n (int_of_string r), (z_of_string f, z_of_string off))]
     | "xmult" :: [v; a; b] -> xmults := (int_of_string v, (z_of_string a, z_of_string b)) :: !xmults
     | "dgopt" :: [x] -> dgopt := (x = "1")
     | "dgroup" :: d :: _ :: ss -> dgroups := !dgroups @ [(List.map (fun x -> i2n (int_of_string x)) ss, z_of_string d)]
@@ -236,7 +241,8 @@ let run_engine (id, lines) =
     | "uorder" :: key :: _ :: r -> orders := !orders @ [(int_of_string key, List.map int_of_string r)]
     | "drow" :: r -> drows := List.map z_of_string r :: !drows
     | "xrow" :: r -> xrows := List.map z_of_string r :: !xrows
-    | "build" :: _ ->
+    | "build" :: names ->
+        res_names_ref := names;
         let stops_x = List.mapi (fun k st -> match List.assoc_opt k !xstops with
                                     | Some (t, e, l) -> { st with is_target = Some t; is_early_pen = e; is_late_pen = l }
                                     | None -> st) (List.rev !stops) in
@@ -250,7 +256,7 @@ let run_engine (id, lines) =
                   in_duration = List.rev !drows; in_distance = List.rev !xrows; in_nres = i2n !nres;
                   in_opts = (match !opts with
                              | Some o ->
-                                 let o = { o with o_dis_dgroups = !dgopt; o_dis_multipliers = !xmopt } in
+                                 let o = { o with o_dis_dgroups = !dgopt; o_dis_multipliers = !xmopt; o_cap_obj = !capobj } in
                                  (match !xopt with
                                   | Some (a, b, c, d) -> { o with o_f_early = a; o_f_late = b; o_f_min_stops = c; o_f_stop_balance = d }
                                   | None -> o)
